@@ -60,6 +60,8 @@ type Exec struct {
 	Ghosts        map[string]GhostFn
 	keySorts      map[string]*smt.Sort
 	escaped       map[*Cell]bool
+	fam           *famEnv
+	famN          int
 }
 
 func NewExec(prog *ssa.Program, specs map[string]*spec.DB) *Exec {
@@ -67,6 +69,7 @@ func NewExec(prog *ssa.Program, specs map[string]*spec.DB) *Exec {
 		fnIDs: map[*ssa.Function]*smt.Term{}, idFn: map[*smt.Term]Value{}, typeIDs: map[string]*smt.Term{}, typeOf: map[int64]types.Type{},
 		strs: map[string]*smt.Term{}, Notes: map[string]bool{}, oblN: map[string]int{}, Ghosts: map[string]GhostFn{}, keySorts: map[string]*smt.Sort{}, escaped: map[*Cell]bool{}}
 	x.initLib()
+	x.registerGhosts()
 	return x
 }
 
@@ -218,6 +221,9 @@ type Frame struct {
 	overTV     map[string]TV
 	outer      *Frame // frame of the enclosing function (for closure contracts)
 	iters      map[*ssa.Range]*rangeIter
+	inOld      int
+	pathMode   bool // loop-free function explored path by path, without merging states at joins
+	pathCount  int
 }
 
 type deferRec struct {
@@ -506,6 +512,9 @@ func (f *Frame) run(st0 *State, args []Value) *RunResult {
 		f.regs[p] = args[i]
 	}
 	f.entry = st0.clone()
+	if f.pathMode && len(f.loops) == 0 {
+		return f.runPaths(st0)
+	}
 	order := rpo(fn)
 	in := map[*ssa.BasicBlock][]*edgeIn{}
 	in[fn.Blocks[0]] = []*edgeIn{{from: nil, st: st0}}
@@ -1107,6 +1116,9 @@ func (f *Frame) selectors(live []*edgeIn) []*smt.Term {
 		pcs[i] = e.st.PC
 	}
 	_, rests := f.x.factorPCs(pcs)
+	if len(pcs) == 2 {
+		rests[0] = f.x.splitSelector(pcs[0], pcs[1], rests[0])
+	}
 	return rests
 }
 
